@@ -102,14 +102,20 @@ MatchWeekNDay(date, p) ==
     /\ MatchWeek(date, p[2])
     /\ (p[3] = ANY \/ p[3] = DayOfWeek(date))
 
+\* Named deviation (finding F15, today's behaviour of match_date_range): a range whose start is unspecified matches no
+\* date.  The property is stated with dev = FALSE; dev = TRUE is only used to label observed disagreements.
+MatchRangeD(dev, date, s, e) == IF dev /\ Unspecified(s) THEN FALSE ELSE MatchRange(date, s, e)
+
 \* BACnetCalendarEntry ::= CHOICE { date, dateRange, weekNDay }
 \*   [kind |-> "date", p |-> <<yp,mp,dp,wp>>] | [kind |-> "range", s |-> bound, e |-> bound] | [kind |-> "wnd", p |-> <<m,w,d>>]
-InCalendarEntry(date, e) ==
+InCalendarEntryD(dev, date, e) ==
     CASE e.kind = "date"  -> MatchDate(date, e.p)
-      [] e.kind = "range" -> MatchRange(date, e.s, e.e)
+      [] e.kind = "range" -> MatchRangeD(dev, date, e.s, e.e)
       [] e.kind = "wnd"   -> MatchWeekNDay(date, e.p)
       [] OTHER            -> FALSE
+InCalendarEntry(date, e) == InCalendarEntryD(FALSE, date, e)
 
 \* 12.9: a Calendar's Date_List is in effect on a date iff some entry matches
-InDateList(date, list) == \E i \in 1..Len(list) : InCalendarEntry(date, list[i])
+InDateListD(dev, date, list) == \E i \in 1..Len(list) : InCalendarEntryD(dev, date, list[i])
+InDateList(date, list) == InDateListD(FALSE, date, list)
 =============================================================================
